@@ -455,6 +455,7 @@ class Driver:
             steps=sim.nsteps - self.call_start_step,
             subs={n: [_cbname(f) for f in d.subs] for n, d in self.world.items() if d.subs},
             scan_id=RE.md.get("scan_id"),
+            store_scan_id=self.md.get("scan_id"),  # what the mapping the user handed to RunEngine(md) holds
         )
         return outcome
 
@@ -516,6 +517,10 @@ class Driver:
                 self._settle(step.get("how"))
             elif do == "set_md":
                 self.RE.md[step["key"]] = step["value"]
+            elif do == "store_put":
+                # the owner of the mapping that was handed to RunEngine(md) writes to it directly
+                self.sim.record("user", do="store_put", key=step["key"], value=step["value"])
+                self.md[step["key"]] = step["value"]
             elif do == "set_attr":
                 setattr(RE, step["name"], step["value"])
             else:
